@@ -4,7 +4,8 @@
 (* interpolation settings (method, order) as mutable attributes, and       *)
 (* builds its interpolator lazily.  CONTRACT: every interpolation uses the *)
 (* settings in force when it is made - whatever was interpolated, or set,  *)
-(* before.  The behaviours (set order / set method / interpolate, in any   *)
+(* before.  The behaviours (set order / set method / convert the points in *)
+(* place to another frame or form / interpolate, in any                    *)
 (* order) are enumerated by TLC and replayed on one real Ephem object per  *)
 (* behaviour; each real result is compared with a FRESH ephemeris built    *)
 (* with the settings the model says are in force (and, for Lagrange, with  *)
@@ -18,20 +19,24 @@
 EXTENDS Integers, Sequences, FiniteSets, TLC
 
 CONSTANTS Orders,            \* orders that may be set
+          Reprs,             \* set of <<frame, form>> the ephemeris may be converted to in place
           Queries,           \* abscissae (half-steps of the table) that may be interpolated
           MaxLen,
           FreezeAtFirstUse   \* FALSE: the contract; TRUE: the deviation
 
 VARIABLES method, order,     \* what the getters report
+          repr,              \* <<frame, form>> of the points (ephem.frame = / ephem.form = convert them in place)
+          usedrepr,          \* representation of the values the next interpolation will really use
           used,              \* <<method, order>> the next interpolation will really use
           built,
           hist               \* actions so far: <<"order", k>>, <<"method", m>>, <<"interp", q, method used, order used>>
 
-vars == <<method, order, used, built, hist>>
+vars == <<method, order, repr, usedrepr, used, built, hist>>
 
 Methods == {"lagrange", "linear"}
 
-Init == method = "lagrange" /\ order = 8 /\ used = <<"lagrange", 8>> /\ built = FALSE /\ hist = <<>>
+Init == /\ method = "lagrange" /\ order = 8 /\ used = <<"lagrange", 8>> /\ built = FALSE /\ hist = <<>>
+        /\ repr = <<"EME2000", "cartesian">> /\ usedrepr = <<"EME2000", "cartesian">>
 
 Can == Len(hist) < MaxLen
 SetOrder(k) ==
@@ -39,22 +44,29 @@ SetOrder(k) ==
   /\ order' = k
   /\ used' = IF FreezeAtFirstUse /\ built THEN used ELSE <<used[1], k>>
   /\ hist' = Append(hist, <<"order", k>>)
-  /\ UNCHANGED <<method, built>>
+  /\ UNCHANGED <<method, built, repr, usedrepr>>
 SetMethod(m) ==
   /\ Can /\ m # method
   /\ method' = m
   /\ used' = IF FreezeAtFirstUse /\ built THEN used ELSE <<m, used[2]>>
   /\ hist' = Append(hist, <<"method", m>>)
-  /\ UNCHANGED <<order, built>>
+  /\ UNCHANGED <<order, built, repr, usedrepr>>
 Interpolate(q) ==
   /\ Can
   /\ built' = TRUE
-  /\ hist' = Append(hist, <<"interp", q, used[1], used[2]>>)
-  /\ UNCHANGED <<method, order, used>>
+  /\ hist' = Append(hist, <<"interp", q, used[1], used[2], usedrepr[1], usedrepr[2]>>)
+  /\ UNCHANGED <<method, order, used, repr, usedrepr>>
+\* ephem.frame = f / ephem.form = f : every point is converted in place
+Convert(r) ==
+  /\ Can /\ r # repr
+  /\ repr' = r
+  /\ usedrepr' = IF FreezeAtFirstUse /\ built THEN usedrepr ELSE r
+  /\ hist' = Append(hist, <<"convert", r[1], r[2]>>)
+  /\ UNCHANGED <<method, order, used, built>>
 
-Next == (\E k \in Orders : SetOrder(k)) \/ (\E m \in Methods : SetMethod(m)) \/ (\E q \in Queries : Interpolate(q))
+Next == (\E k \in Orders : SetOrder(k)) \/ (\E m \in Methods : SetMethod(m)) \/ (\E q \in Queries : Interpolate(q)) \/ (\E r \in Reprs : Convert(r))
 Spec == Init /\ [][Next]_vars
 
 \* CONTRACT: what an interpolation uses is what the getters report
-UsesCurrentSettings == used = <<method, order>>
+UsesCurrentSettings == used = <<method, order>> /\ usedrepr = repr
 =============================================================================
